@@ -466,7 +466,7 @@ func (g *gen) events(r *cv.Rand, nEntries int, thorough bool) {
 			c := *k
 			c.Name = "ix"
 			e := &Entry{Type: "event", Name: "K", Anonymous: anon, Inputs: []Param{{T: &T{K: kString, Name: "s"}}, {T: &c, Indexed: true}, {T: &T{K: kUint, M: 16, Name: "n"}}}}
-			g.eventVariants(r, e, true, thorough || ki < 2)
+			g.eventVariants(r, e, thorough || !anon || ki%3 == 0, thorough || ki < 2)
 		}
 	}
 	// every assignment of indexed flags up to the topic limit, 0..8 parameters
@@ -486,7 +486,7 @@ func (g *gen) events(r *cv.Rand, nEntries int, thorough bool) {
 				for i := range fl {
 					e.Inputs[i].Indexed = fl[i]
 				}
-				g.eventVariants(r, e, si%7 == 0, thorough)
+				g.eventVariants(r, e, si%7 == 0 && (thorough || si%21 == 0), thorough)
 			}
 		}
 	}
@@ -651,7 +651,7 @@ func main() {
 	thorough := *tier == "thorough"
 	g.w = cv.NewWriter(*out, "C12", header, "hcase", "mismatches", 16)
 	r := cv.NewRand(12)
-	nSig, nCall, nPool, nMal, nEv, nErr := 150, 110, 40, 12, 30, 36
+	nSig, nCall, nPool, nMal, nEv, nErr := 150, 110, 40, 12, 20, 36
 	if thorough {
 		nSig, nCall, nPool, nMal, nEv, nErr = 3000, 2500, 40, 200, 600, 600
 	}
